@@ -148,7 +148,9 @@ def renderXTree (t : XTree) : String :=
   renderList ((t.map fun (k, n) =>
     match n with
     | .dir => s!"{Driver.hex k}:d"
-    | .file d => s!"{Driver.hex k}:f:{d.length}:{fnv d}").mergeSort strLe)
+    | .file d => s!"{Driver.hex k}:f:{d.length}:{fnv d}"
+    | .sym tgt => s!"{Driver.hex k}:s:{Driver.hex tgt}"
+    | .special => s!"{Driver.hex k}:x").mergeSort strLe)
 
 def stepLine (s : St) (l : String) : St × String :=
   match Driver.words l with
